@@ -165,8 +165,10 @@ class XKNX:
         self.task_registry.stop()
         self.state_updater.stop()
         await self.join()
-        await self.telegram_queue.stop()
+        # the interface (producer of incoming telegrams) first - a frame received
+        # behind the queue's stop sentinel would never be marked done
         await self.knxip_interface.stop()
+        await self.telegram_queue.stop()
         self.started.clear()
 
     async def loop_until_sigint(self) -> None:
